@@ -22,22 +22,24 @@ func pick[T any](r *Rng, xs ...T) T { return xs[r.intn(len(xs))] }
 
 // Profile selects which constructs a generated program may use (weights 0 = never).
 type Profile struct {
-	Leafs       bool // only leaf draws (C03 value-level)
-	Collections int
-	Rejecting   int // distinct slices over tiny domains, filters, maps with bool keys
-	Custom      int
-	Repeat      int
-	Fail        int // fatal/panic failures on drawn conditions
-	NonFatal    int
-	Skip        int
-	Cleanup     int
-	Context     int
-	MaxDepth    int
-	MaxDraws    int
+	Leafs           bool // only leaf draws (C03 value-level)
+	Collections     int
+	Rejecting       int // distinct slices over tiny domains, filters, maps with bool keys
+	Custom          int
+	Repeat          int
+	Fail            int // fatal/panic failures on drawn conditions
+	NonFatal        int
+	Skip            int
+	Cleanup         int
+	Context         int
+	MaxDepth        int
+	MaxDraws        int
+	CleanupPanicPct int // share of cleanup functions that panic / fail fatally
 }
 
 var ProfAll = Profile{Collections: 3, Rejecting: 3, Custom: 2, Repeat: 2, Fail: 3, NonFatal: 2, Skip: 2, Cleanup: 2, Context: 1, MaxDepth: 3, MaxDraws: 4}
 var ProfPure = Profile{Collections: 3, Rejecting: 4, Custom: 2, Repeat: 2, Fail: 3, NonFatal: 0, Skip: 2, Cleanup: 0, Context: 0, MaxDepth: 3, MaxDraws: 4}
+var ProfCleanups = Profile{Collections: 1, Rejecting: 1, Custom: 2, Repeat: 1, Fail: 2, NonFatal: 1, Skip: 1, Cleanup: 14, Context: 2, MaxDepth: 2, MaxDraws: 8, CleanupPanicPct: 50}
 var ProfValues = Profile{Collections: 4, Rejecting: 3, Custom: 1, Repeat: 0, Fail: 0, NonFatal: 0, Skip: 0, Cleanup: 0, Context: 0, MaxDepth: 3, MaxDraws: 3}
 
 type pgen struct {
@@ -308,6 +310,10 @@ func (g *pgen) terminal(nvars int, inCustom bool) *Stmt {
 		}
 		return retUnit()
 	case c < w[0]+w[1]:
+		if nvars > 0 && r.chance(35) {
+			// message and recursion depth depend on drawn values
+			return &Stmt{Op: "failv", Kind: pick(r, "fatal", "fatal", "panic"), Id: g.id(), E: cvar(r.intn(nvars)), D: cvar(r.intn(nvars)), Next: retUnit()}
+		}
 		if r.chance(70) {
 			return &Stmt{Op: "fail", Kind: "fatal", Variant: pick(r, "fatalf", "fatalf", "fatal", "failnow"), Id: g.id(), Msg: uint64(r.intn(50)), Next: retUnit()}
 		}
@@ -375,6 +381,12 @@ func (g *pgen) terminalOrBody(depth, nvars, draws int, inCustom bool) *Stmt {
 
 func (g *pgen) cleanupBody(nvars int) *Stmt {
 	r, pf := g.r, g.pf
+	if pf.CleanupPanicPct > 0 && r.chance(pf.CleanupPanicPct) {
+		if r.chance(50) {
+			return &Stmt{Op: "fail", Kind: "fatal", Variant: "fatalf", Id: g.id(), Msg: uint64(r.intn(50)), Next: retUnit()}
+		}
+		return &Stmt{Op: "fail", Kind: "panic", Variant: "panicstr", Id: g.id(), Msg: uint64(r.intn(50)), Next: retUnit()}
+	}
 	switch r.intn(8) {
 	case 0:
 		if pf.NonFatal > 0 {
@@ -409,7 +421,7 @@ func (g *pgen) repeat(depth, nvars, draws int, inCustom bool) *Stmt {
 	for i := range acts {
 		var a *Stmt
 		inc := &Stmt{Op: "ret", E: &VExp{Op: "add", A: cvar(st), B: cconst(zv(int64(1 + r.intn(3))))}}
-		switch r.intn(6) {
+		switch r.intn(7) {
 		case 0: // skip before drawing on a state condition
 			a = &Stmt{Op: "if", C: &Cond{Op: "eq", A: &VExp{Op: "modc", A: cvar(st), K: 2}, B: cconst(zv(int64(r.intn(2))))},
 				A: &Stmt{Op: "skip", Variant: "skip", Msg: 1}, B: inc}
@@ -428,6 +440,12 @@ func (g *pgen) repeat(depth, nvars, draws int, inCustom bool) *Stmt {
 		case 4:
 			if pf.Cleanup > 0 {
 				a = &Stmt{Op: "cleanup", Id: g.id(), A: &Stmt{Op: "log", Msg: 3, Next: retUnit()}, Next: inc}
+			}
+		case 5: // a draw that can run out of retries inside the action (distinct elements of a tiny domain)
+			if pf.Rejecting > 0 {
+				n := 2 + r.intn(2)
+				d := &Gen{Op: "sliced", MinLen: n, MaxLen: n, Fn: &Fn1{Op: "id"}, Subs: []*Gen{{Op: "int", Kind: "Int64", Variant: "range", IMin: 0, IMax: int64(n - 1 - r.intn(2))}}}
+				a = &Stmt{Op: "draw", G: d, Next: inc}
 			}
 		}
 		if a == nil {
